@@ -60,18 +60,19 @@ type lockFuncInfo struct {
 }
 
 type LockAnalysis struct {
-	P        *Program
-	mField   *types.Var
-	outField *types.Var
-	guarded  map[*types.Var]string // field -> "State.mode"
-	cacheFld map[*types.Var]string // markup cache fields -> name
-	info     map[*ssa.Function]*lockFuncInfo
-	mayLock  map[*ssa.Function]bool   // may synchronously reach a Lock of State.m
-	touches  map[*ssa.Function]bool   // may synchronously reach a Lock or Unlock
-	needs    map[*ssa.Function]string // reason the function requires the lock on entry
-	origin   map[*ssa.Function]string // why a function starts with the lock not held
-	summary  map[*ssa.Function]lstate
-	inprog   map[*ssa.Function]bool
+	P         *Program
+	mField    *types.Var
+	outField  *types.Var
+	feedField *types.Var            // Page.feed: stands for the state inside the feed in calls of its methods
+	guarded   map[*types.Var]string // field -> "State.mode"
+	cacheFld  map[*types.Var]string // markup cache fields -> name
+	info      map[*ssa.Function]*lockFuncInfo
+	mayLock   map[*ssa.Function]bool   // may synchronously reach a Lock of State.m
+	touches   map[*ssa.Function]bool   // may synchronously reach a Lock or Unlock
+	needs     map[*ssa.Function]string // reason the function requires the lock on entry
+	origin    map[*ssa.Function]string // why a function starts with the lock not held
+	summary   map[*ssa.Function]lstate
+	inprog    map[*ssa.Function]bool
 }
 
 func (la *LockAnalysis) lockCallKind(c *ssa.CallCommon) string {
@@ -103,18 +104,19 @@ func (la *LockAnalysis) lockCallKind(c *ssa.CallCommon) string {
 
 func NewLockAnalysis(P *Program) *LockAnalysis {
 	la := &LockAnalysis{
-		P:        P,
-		mField:   P.Field("servitor/ui", "State", "m"),
-		outField: P.Field("servitor/ui", "State", "output"),
-		guarded:  map[*types.Var]string{},
-		cacheFld: map[*types.Var]string{},
-		info:     map[*ssa.Function]*lockFuncInfo{},
-		mayLock:  map[*ssa.Function]bool{},
-		touches:  map[*ssa.Function]bool{},
-		needs:    map[*ssa.Function]string{},
-		origin:   map[*ssa.Function]string{},
-		summary:  map[*ssa.Function]lstate{},
-		inprog:   map[*ssa.Function]bool{},
+		P:         P,
+		mField:    P.Field("servitor/ui", "State", "m"),
+		outField:  P.Field("servitor/ui", "State", "output"),
+		feedField: P.FieldOpt("servitor/ui", "Page", "feed"),
+		guarded:   map[*types.Var]string{},
+		cacheFld:  map[*types.Var]string{},
+		info:      map[*ssa.Function]*lockFuncInfo{},
+		mayLock:   map[*ssa.Function]bool{},
+		touches:   map[*ssa.Function]bool{},
+		needs:     map[*ssa.Function]string{},
+		origin:    map[*ssa.Function]string{},
+		summary:   map[*ssa.Function]lstate{},
+		inprog:    map[*ssa.Function]bool{},
 	}
 	for _, tn := range []string{"State", "Page"} {
 		st := P.NamedType("servitor/ui", tn).Underlying().(*types.Struct)
@@ -293,6 +295,21 @@ func (la *LockAnalysis) classify(in ssa.Instruction) []guardedAccess {
 		f := fieldOf(x)
 		if name, ok := la.guarded[f]; ok {
 			out = append(out, guardedAccess{in: in, what: "read:" + name, field: f, base: x.X})
+		}
+	}
+	// the cursor and bounds of a feed, and the history, are UI state too: their methods
+	// read and write them, so a call from package ui needs the lock like a field access does
+	if c := callOf(in); c != nil && !c.IsInvoke() {
+		if sc := c.StaticCallee(); sc != nil && sc.Signature.Recv() != nil && len(c.Args) > 0 && in.Parent() != nil && in.Parent().Pkg != nil && in.Parent().Pkg.Pkg.Path() == "servitor/ui" {
+			rt := sc.Signature.Recv().Type()
+			if isNamed(rt, "servitor/feed", "Feed") && la.feedField != nil && !freshBase(c.Args[0]) {
+				write := false
+				switch sc.Name() {
+				case "Append", "Prepend", "MoveUp", "MoveDown", "MoveToCenter":
+					write = true
+				}
+				out = append(out, guardedAccess{in: in, what: "call:Feed." + sc.Name(), field: la.feedField, write: write, base: c.Args[0]})
+			}
 		}
 	}
 	if c := callOf(in); c != nil && !c.IsInvoke() {
